@@ -706,7 +706,11 @@ def extra_obligations(tier, seed):
         ob.replay_script = "import sys; sys.path.insert(0, %r)\nfrom native import c20\nc20.table(%r, %r, %r)\n" % (
             __import__('os').path.dirname(__import__('os').path.dirname(__import__('os').path.abspath(__file__))), o, want.get(o), got)
         obs.append(ob)
-    return {'obligations': obs, 'summary': 'dispatch table: %d registered callables compared with the expected map' % len(obs)}
+    nreg = len(obs)
+    for m in EXTENSIONS:
+        if hasattr(m, 'extra_obligations'):
+            obs += m.extra_obligations()
+    return {'obligations': obs, 'summary': 'dispatch table: %d registered callables compared with the expected map; %d further ground obligations (operator table)' % (nreg, len(obs) - nreg)}
 
 
 def contracts():
@@ -724,6 +728,8 @@ def contracts():
                 cs.append(Algebra(m, ka, kb))
     cs += [Pow('int'), Pow('fraction'), Wrap(True), Wrap(False)]
     cs += [CallCheck(cd, p) for cd in (False, True) for p in ('float', 'same', 'other')]
+    for m in EXTENSIONS:
+        cs += m.contracts()
     return cs
 
 
@@ -733,5 +739,11 @@ TRUSTED = ['pyvc symbolic executor; generator Quantity.__unpack evaluated eagerl
            'EXPECTED registration map (contracts/C20.py) is the specification of which function follows which rule']
 ASSUMPTIONS = ['three symbolic base dimensions in the handler contracts / two named bases in the algebra contracts (the code is generic in base names); exponents are arbitrary rationals (reals)',
                'Quantity.__locate, __attribute and the evaluate handler are covered by the registration table only']
-NOT_COVERED = ['numerical values in reference units (float arithmetic), the wrapped nutils/numpy functions themselves', 'unit string parsing/formatting round trip, prefix handling (string scanning)',
-               'from_powers naming injectivity, pickling via __getattr__']
+from contracts import C20_ops, C20_strings, C20_unit
+EXTENSIONS = [C20_ops, C20_strings, C20_unit]
+for _m in EXTENSIONS:
+    TRUSTED += getattr(_m, 'TRUSTED', [])
+    ASSUMPTIONS += getattr(_m, 'ASSUMPTIONS', [])
+NOT_COVERED = ['numerical values in reference units (float arithmetic), the wrapped nutils/numpy functions themselves']
+for _m in EXTENSIONS:
+    NOT_COVERED += getattr(_m, 'NOT_COVERED', [])
